@@ -245,6 +245,12 @@ Plan gen_c05(uint64_t seed, bool th) {
   g.p.prop = "C05";
   g.p.seed = seed;
   base_shape(g, 2, th ? 7 : 5);
+  if (g.r.pct(22)) {
+    // a small max_outgoing_bytes with readers that stall behind small socket buffers: full recipient queues
+    g.p.cfg["lim.out_bytes"] = std::to_string(g.r.range(100, 2500));
+    g.sh.rxcap_small_pct = 70;
+    g.sh.lazy_drain = true;
+  }
   g.connect_all(g.r.pct(30), g.r.pct(40));
   // some clients eavesdrop
   if (g.r.pct(30)) g.add(g.mk("addmatch", g.a_client(), {-1}, {"eavesdrop='true'"}));
